@@ -105,7 +105,11 @@ class PROP(Prop):
     id = "C18"
     profiles = ["debug"]
     shard_min = 1
-    kernel_sample = 0
+    kernel_sample = 48
+
+    def kernel_pool(self, cases):
+        # the concurrent runs have no model line of their own (their per-connection follow-ups do)
+        return [c for c in cases if c.meta["k"] in ("pipe", "srv", "accept", "survive")]
     rule = ("runs of 2..16 (quick) / 2..64 (thorough) simultaneous real TCP clients against one real TCP resp. RTU-over-TCP server on a multi-threaded "
             "runtime (2..8 workers); every connection pipelines 1..12 requests tagged (connection, sequence) with random pacing (0..300 us); the "
             "service answers by a fixed rule (echo / computed registers / no reply / exception).  Oracle: the bytes each client received are exactly "
